@@ -41,7 +41,7 @@ def limit_memory():
     'fatal error: runtime: out of memory' instead (address-space limit; not used for -race builds, which reserve
     terabytes of address space)."""
     import resource
-    gb = int(os.environ.get("VERIF_HARNESS_AS_GB", "24"))
+    gb = int(os.environ.get("VERIF_HARNESS_AS_GB", "16"))
     resource.setrlimit(resource.RLIMIT_AS, (gb << 30, gb << 30))
 
 
@@ -341,6 +341,10 @@ class Check:
             verdicts += self._chunk_with_deaths(args + ["-workers", "1"], suspects, timeout)
             if not pending:
                 return verdicts
+            if sum(1 for v in verdicts if v.get("verdict") == "crash") >= 3 or rounds >= 6:
+                # enough culprits identified: the remaining cases are not run (recorded in the evidence)
+                self.extra["replay_truncated_after_process_deaths"] = len(pending)
+                return verdicts + [{"id": c["id"], "verdict": "skip", "class": "not-run"} for c in pending]
             try:
                 verdicts += self.harness(args, pending, race=race, timeout=timeout, env=env)
                 return verdicts
@@ -376,8 +380,10 @@ class Check:
                              "note": "the process running this case was killed by the Go runtime: %s" % why})
             pending = pending[len(done) + 1:]
             deaths += 1
-            if deaths > 30:
-                raise InfraError("more than 30 process deaths in one chunk; last: %s" % p.stderr[:1000])
+            if deaths >= 4:
+                verdicts += [{"id": c["id"], "verdict": "skip", "class": "not-run"} for c in pending]
+                self.extra["replay_truncated_after_process_deaths"] = self.extra.get("replay_truncated_after_process_deaths", 0) + len(pending)
+                break
         self.extra["process_deaths"] = self.extra.get("process_deaths", 0) + deaths
         return verdicts
 
